@@ -11,6 +11,7 @@
 #include <fcppt/unit.hpp>
 #include <fcppt/string_literal.hpp>
 #include <fcppt/container/join.hpp>
+#include <fcppt/container/make.hpp>
 #include <fcppt/either/map.hpp>
 #include <fcppt/parse/basic_stream_fwd.hpp>
 #include <fcppt/parse/deref.hpp>
@@ -56,7 +57,7 @@ fcppt::parse::repetition_plus<Parser>::parse(
         {
           // TODO(philipp): Should we reverse this so that push_back works?
           return fcppt::container::join(
-              result_type{std::move(fcppt::tuple::get<0>(_result))},
+              fcppt::container::make<result_type>(std::move(fcppt::tuple::get<0>(_result))),
               std::move(fcppt::tuple::get<1>(_result)));
         }
       });
